@@ -15,6 +15,9 @@ RULE = ("(a) bit-exact correspondence of both lambda-sum branches and of the Z u
 
 SCALAR_TYPES = {"int": int, "float": float, "np.float64": np.float64, "np.float32": np.float32, "np.float16": np.float16,
                 "np.int32": np.int32, "np.int64": np.int64}
+# reduced-precision scalars whose value is NOT a short dyadic number: the reference is the Python float holding the SAME numeric value
+NARROW = [("np.float32", np.float32, 0.11), ("np.float16", np.float16, 0.11), ("np.float32", np.float32, 0.7), ("np.float16", np.float16, 1.3),
+          ("np.int8", np.int8, 50), ("np.uint8", np.uint8, 100), ("np.int16", np.int16, 3000), ("np.float32", np.float32, 1e-3)]
 
 
 def kernel_forms(payload):
@@ -110,6 +113,17 @@ def run(ctx):
                         continue
                     if got.tobytes() != refd.tobytes():
                         ctx.violation("monitor", "sparsity weight %r as %s gives a different result than as float" % (dy, tname), {"case": case, "type": tname, "value": dy})
+                tname, tp, raw = NARROW[i % len(NARROW)]
+                val = tp(raw)
+                same = float(val)                      # the same numeric value as a Python float
+                try:
+                    a = admm.admm_optimize_theta(S, same, W, N).theta
+                    b = admm.admm_optimize_theta(S, val, W, N).theta
+                    if a.tobytes() != b.tobytes():
+                        ctx.violation("monitor", "sparsity weight %s(%r) gives a different result than the Python float of the same value %r (max diff %.3g)"
+                                      % (tname, raw, same, float(np.max(np.abs(a - b)))), {"case": case, "type": tname, "value": same})
+                except Exception as e:  # noqa
+                    ctx.violation("monitor", "sparsity weight %s(%r) is rejected: %s: %s" % (tname, raw, type(e).__name__, e), {"case": case, "type": tname, "value": same})
         # (c) labelling step
         payload = []
         for i in range(ctx.budget(40, 200)):
@@ -149,6 +163,12 @@ def run(ctx):
             if tname not in ("int", "np.int32", "np.int64"):
                 forms.append(("lambda:" + tname, dict(label_switching_cost=4.0, sparsity_weight=tp(0.5), min_meaningful_covariance=0.0)))
             forms.append(("eps:" + tname, dict(label_switching_cost=4.0, sparsity_weight=0.5, min_meaningful_covariance=tp(0))))
+        for tname, tp, raw in NARROW[:4]:
+            v = tp(raw)
+            forms.append(("reference-for-lambda:%s(%r)" % (tname, raw), dict(label_switching_cost=4.0, sparsity_weight=float(v), min_meaningful_covariance=0.0)))
+            forms.append(("lambda:%s(%r)" % (tname, raw), dict(label_switching_cost=4.0, sparsity_weight=v, min_meaningful_covariance=0.0)))
+            forms.append(("reference-for-beta:%s(%r)" % (tname, raw), dict(label_switching_cost=float(v) * 10, sparsity_weight=0.5, min_meaningful_covariance=0.0)))
+            forms.append(("beta:%s(%r)" % (tname, raw), dict(label_switching_cost=tp(float(v) * 10) if float(tp(float(v) * 10)) == float(v) * 10 else float(v) * 10, sparsity_weight=0.5, min_meaningful_covariance=0.0)))
         for m in ("interp", "jit"):
             r = core.run_worker(ctx, "vcheck.props.c18:e2e_forms", (series, 3, 2, forms), mode=m, tag="e2eforms")
             if not r["ok"]:
@@ -158,6 +178,9 @@ def run(ctx):
             for name, dg in r["result"][1:]:
                 ctx.count("e2e-type:" + m)
                 ctx.mark_nontrivial((m, name))
+                if name.startswith("reference-for-"):
+                    refd = dg                      # the next form is compared with this one
+                    continue
                 if dg != refd:
                     ctx.violation("monitor", "end to end (%s): parameter form %s gives %s instead of the reference result" % (m, name, dg[:80]),
                                   {"mode": m, "form": name, "data_seed": 12, "W": 3, "K": 2})
